@@ -1031,6 +1031,7 @@ func ruleCryptoKeySealing(c *report.Ctx) {
 	}
 	// value → the object it was produced from: X.Encrypt(..)#0 → X ; X.Marshal() → X
 	producer := func(v ssa.Value, method string) ssa.Value {
+		v = soleNonNil(v)
 		if ex, ok := v.(*ssa.Extract); ok {
 			v = ex.Tuple
 		}
